@@ -41,9 +41,14 @@ type ambientView struct {
 	pos  map[*securityclient.PeerAuthentication]int
 	idx  krt.Index[string, *securityclient.PeerAuthentication]
 	mesh *ambient.MeshConfig
+
+	sentCache map[string]*security.Authorization
 }
 
 func (s *sut) ambientView() *ambientView {
+	if s.av != nil {
+		return s.av
+	}
 	v := &ambientView{pos: map[*securityclient.PeerAuthentication]int{}}
 	for i, p := range s.pas {
 		cr := crOf(p)
@@ -53,6 +58,7 @@ func (s *sut) ambientView() *ambientView {
 	col := krt.NewStaticCollection[*securityclient.PeerAuthentication](nil, v.crs)
 	v.idx = krt.NewNamespaceIndex(col)
 	v.mesh = &ambient.MeshConfig{MeshConfig: &meshconfig.MeshConfig{RootNamespace: s.root}}
+	s.av = v
 	return v
 }
 
@@ -64,38 +70,30 @@ func (v *ambientView) inOrder(l []*securityclient.PeerAuthentication) []*securit
 	return out
 }
 
-// indexedNoSelector is the PeerAuthByNamespace index of PolicyCollections (policies.go): only
-// policies whose selector is nil, by namespace; enumeration order = ops-file order.
-func (v *ambientView) indexedNoSelector(ns string) []*securityclient.PeerAuthentication {
-	var out []*securityclient.PeerAuthentication
-	for _, cr := range v.crs {
-		if cr.Namespace == ns && cr.Spec.GetSelector() == nil {
-			out = append(out, cr)
+// sent runs the REAL ambient.PolicyCollections (PeerAuthDerivedPolicies + DefaultPolicy, policies.go) over
+// static krt collections holding the case's PeerAuthentications and returns everything istiod would
+// send to ztunnel, by resource name ("<namespace>/<name>").
+func (v *ambientView) sent(root string) map[string]*security.Authorization {
+	if v.sentCache != nil {
+		return v.sentCache
+	}
+	stop := make(chan struct{})
+	defer close(stop)
+	opts := krt.NewOptionsBuilder(stop, "c10", nil)
+	authz := krt.NewStaticCollection[*securityclient.AuthorizationPolicy](nil, nil, opts.WithName("authz")...)
+	pas := krt.NewStaticCollection[*securityclient.PeerAuthentication](nil, v.crs, opts.WithName("peerauths")...)
+	mesh := krt.NewStatic(v.mesh, true, opts.WithName("mesh")...)
+	wps := krt.NewStaticCollection[ambient.Waypoint](nil, nil, opts.WithName("waypoints")...)
+	_, policies := ambient.PolicyCollections(authz, pas, mesh, wps, opts, ambient.FeatureFlags{})
+	policies.WaitUntilSynced(stop)
+	out := map[string]*security.Authorization{}
+	for _, wa := range policies.List() {
+		if wa.Authorization != nil {
+			out[wa.ResourceName()] = wa.Authorization
 		}
 	}
+	v.sentCache = out
 	return out
-}
-
-// derived = what PeerAuthDerivedPolicies sends for policy cr (nil: nothing sent).
-func (v *ambientView) derived(root string, cr *securityclient.PeerAuthentication) *security.Authorization {
-	var nsPol, rootPol *securityclient.PeerAuthentication
-	if l := v.indexedNoSelector(cr.Namespace); len(l) > 0 {
-		nsPol = ambient.VerifGetOldestPeerAuthn(l)
-	}
-	if l := v.indexedNoSelector(root); len(l) > 0 {
-		rootPol = ambient.VerifGetOldestPeerAuthn(l)
-	}
-	return ambient.VerifConvertPeerAuthentication(root, cr, nsPol, rootPol)
-}
-
-func staticStrictAuthz(root string) *security.Authorization {
-	return &security.Authorization{
-		Name: ambient.VerifStaticStrictPolicyName, Namespace: root,
-		Scope: security.Scope_WORKLOAD_SELECTOR, Action: security.Action_DENY,
-		Groups: []*security.Group{{Rules: []*security.Rules{{Matches: []*security.Match{{
-			NotPrincipals: []*security.StringMatch{{MatchType: &security.StringMatch_Presence{}}},
-		}}}}}},
-	}
 }
 
 // ---------------------------------------------------------------- ztunnel semantics on the protos
@@ -225,28 +223,24 @@ func (s *sut) ambientEval(ns string, labels [][2]string) ambientResult {
 	sort.Strings(res.fetched)
 	res.keys = ambient.VerifConvertedSelectorPeerAuthentications(s.root, fetched)
 	res.pol = "-"
+	sent := v.sent(s.root)
 	for _, k := range res.keys {
-		kns, kname, _ := strings.Cut(k, "/")
-		if kns == s.root && kname == ambient.VerifStaticStrictPolicyName {
-			res.attached = append(res.attached, staticStrictAuthz(s.root))
-			continue
-		}
-		const prefix = "converted_peer_authentication_"
-		var src *securityclient.PeerAuthentication
-		for _, cr := range v.crs {
-			if cr.Namespace == kns && prefix+cr.Name == kname {
-				src = cr
+		a := sent[k]
+		if strings.HasSuffix(k, "/"+ambient.VerifStaticStrictPolicyName) {
+			if a == nil {
+				res.pol = "static-strict-not-sent"
+				res.dangling = true
+			} else {
+				res.attached = append(res.attached, a)
+				if sh := showAuthz(a); sh != "np" {
+					res.pol = "static-strict-is-" + sh
+				}
 			}
-		}
-		if src == nil {
-			res.pol = "unknown-key"
-			res.dangling = true
 			continue
 		}
-		a := v.derived(s.root, src)
 		res.pol = showAuthz(a)
 		if a == nil {
-			res.dangling = true
+			res.dangling = true // referenced by the workload, never sent
 		} else {
 			res.attached = append(res.attached, a)
 		}
@@ -342,15 +336,21 @@ func (s *sut) ambientOracle(f []string, _ string, fail func(clause, class, detai
 				}
 			}
 		}
+		nsRaw := "-"
+		if l.ns != nil {
+			nsRaw = inheritTok(l.ns.mtls, "UNSET")
+		}
 		switch {
-		case want && !got && l.wl != nil && (wlMode == "PERMISSIVE" || wlMode == "DISABLE") && portMode == "STRICT" && l.meshMode == "STRICT" && !hasEmptySelector(s.pas):
-			class = "F2:strict-port-under-nonstrict-workload-and-strict-mesh"
-		case !want && got && l.wl != nil && wlMode == "UNSET" && portMode == "DISABLE" && l.nsMode == "STRICT" && !hasEmptySelector(s.pas):
-			class = "F3:disable-port-under-inherited-strict"
 		case hasEmptySelector(s.pas):
-			class = "empty-selector"
+			class = "F12:empty-selector"
 		case tied(s.pas):
-			class = "creation-time-tie"
+			class = "F11:creation-time-tie"
+		case want && !got && l.wl != nil && (wlMode == "PERMISSIVE" || wlMode == "DISABLE") && portMode == "STRICT" && l.meshMode == "STRICT":
+			class = "F2:strict-port-under-nonstrict-workload-and-strict-mesh"
+		case !want && got && l.wl != nil && wlMode == "UNSET" && portMode == "DISABLE" && l.nsMode == "STRICT":
+			class = "F3:disable-port-under-inherited-strict"
+		case want && !got && l.wl != nil && wlMode == "UNSET" && nsRaw == "UNSET" && l.meshMode == "STRICT":
+			class = "F10:exemption-under-unset-namespace-policy-and-strict-mesh"
 		}
 		fail("ambient-strict-exact", class, fmt.Sprintf("port %d spec-strict %v rejected %v keys %s policy %s wl %s/%s ns %s mesh %s",
 			p, want, got, strings.Join(r.keys, ","), r.pol, wlMode, portMode, l.nsMode, l.meshMode))
